@@ -1470,6 +1470,17 @@ func (u *Unit) callAssertsBefore(fr *Frame, st *State, c *ssa.Call) {
 	}
 	for _, cl := range ats {
 		env := u.frameEnv(fr, st, nil)
+		// callArgN: the arguments of the call (a method call's receiver is not counted)
+		cargs := c.Common().Args
+		if !c.Common().IsInvoke() && c.Common().Signature().Recv() != nil && len(cargs) > 0 {
+			cargs = cargs[1:]
+		}
+		for i, a := range cargs {
+			func() {
+				defer func() { recover() }()
+				env.vars[fmt.Sprintf("callArg%d", i)] = u.value(fr, a)
+			}()
+		}
 		g := u.evalIn(env, cl)
 		if cl.assumeAt {
 			u.assume(st.guard, g)
